@@ -698,7 +698,7 @@ example :
   decide +kernel
 def exSys : Sys := BertE.Drv.C01.initSys false false [.dev 4 (some 3), .dev 5 (some 1), .dev 10 (some 0)]
 def exSys1 : Sys := (step exSys (.extSet "feature/x" [1] false)).1
-def exPr : PrInfo := ⟨1, "feature/x", .dev 4 (some 3)⟩
+def exPr : PrInfo := ⟨1, "feature/x", .dev 4 (some 3), false⟩
 def exSys2 : Sys := (step exSys1 (.evalPr exPr .integration [] [])).1
 def exSys3 : Sys := (step exSys2 (.evalPr exPr .final [] [])).1
 def exSys4 : Sys := (step exSys2 (.evalDeclined exPr true)).1
